@@ -60,9 +60,9 @@ type tcase struct {
 	RespHeaders map[string]string
 	Auth        string
 	// harness-side bookkeeping (not read by the driver)
-	expect expectation
-	note   string
-	devParam *PSpec   // C03: the parameter whose raw occurrences deviate (others are valid)
+	expect   expectation
+	note     string
+	devParam *PSpec // C03: the parameter whose raw occurrences deviate (others are valid)
 	devRaws  []string
 	devKey   bool
 	creds    creds
@@ -1060,8 +1060,8 @@ func main() {
 		}
 		rep := map[string]interface{}{
 			"evaluations": n, "distinct_nontrivial": n,
-			"rule":       "specs of ~14 generated operations: path/query/header/formData/body parameters of every scalar type and integer format (incl. unsigned), arrays in every collectionFormat, required / optional / allowEmptyValue / default, every validation; declared 2xx, non-2xx and default responses with and without payload and headers; every security shape (inherit, none, single, AND, OR, mix; apiKey header/query, basic, oauth2 scopes); root path and base path variants; half of the specs generated with a custom principal type. Server and client are generated, compiled and driven in-process. C03: a valid request plus one deviation per parameter (absent, empty, malformed, boundary, repeated key) and body variants; C06: all 36 credential combinations per operation plus unauthenticated+invalid input; C04: client calls with valid values (and the empty value of required allowEmptyValue parameters) x every declared response, default and an undeclared code. Every case is distinct (operation, deviation) and non-trivial.",
-			"samples":    samples[prop], "coverage": cov, "violations": vs, "builds": builds, "model_cases": len(coq[prop]),
+			"rule":    "specs of ~14 generated operations: path/query/header/formData/body parameters of every scalar type and integer format (incl. unsigned), arrays in every collectionFormat, required / optional / allowEmptyValue / default, every validation; declared 2xx, non-2xx and default responses with and without payload and headers; every security shape (inherit, none, single, AND, OR, mix; apiKey header/query, basic, oauth2 scopes); root path and base path variants; half of the specs generated with a custom principal type. Server and client are generated, compiled and driven in-process. C03: a valid request plus one deviation per parameter (absent, empty, malformed, boundary, repeated key) and body variants; C06: all 36 credential combinations per operation plus unauthenticated+invalid input; C04: client calls with valid values (and the empty value of required allowEmptyValue parameters) x every declared response, default and an undeclared code. Every case is distinct (operation, deviation) and non-trivial.",
+			"samples": samples[prop], "coverage": cov, "violations": vs, "builds": builds, "model_cases": len(coq[prop]),
 		}
 		b, _ := json.MarshalIndent(rep, "", " ")
 		_ = os.WriteFile(filepath.Join(*out, strings.ToLower(prop)+".json"), b, 0o644)
